@@ -244,6 +244,86 @@ func ruleNodeLayer(c *Ctx) {
 			}
 		}
 		visit(u.Body.List)
+		// statement lists inside function literals (deferred closures) and case clauses
+		ast.Inspect(u.Body, func(n ast.Node) bool {
+			switch x := n.(type) {
+			case *ast.FuncLit:
+				visit(x.Body.List)
+			case *ast.CaseClause:
+				visit(x.Body)
+			}
+			return true
+		})
+	}
+	// release idiom agreement: every place that replaces a node by one of another size class
+	// (a pool Get followed by the overwrite of the slot) releases the old node the same way –
+	// inline (clear + Put in the same block) at all of them, or at none of them (a shared helper).
+	// A mix is how a node comes to be released twice, or not at all.
+	{
+		type site struct {
+			name   string
+			pos    token.Pos
+			inline bool
+		}
+		var sites []site
+		for _, u := range c.sortedUnits() {
+			if u.Lit != nil || u.Recv == "" {
+				continue
+			}
+			if rt := m.Pkg.Scope().Lookup(u.Recv); rt == nil || m.kindByStruct(rt.Type()) == nil {
+				continue
+			}
+			var visit func(list []ast.Stmt)
+			visit = func(list []ast.Stmt) {
+				hasGet, hasPut := false, false
+				var pos token.Pos
+				for _, st := range list {
+					switch x := st.(type) {
+					case *ast.IfStmt:
+						visit(x.Body.List)
+						if eb, ok := x.Else.(*ast.BlockStmt); ok {
+							visit(eb.List)
+						}
+					case *ast.AssignStmt:
+						if len(x.Rhs) == 1 {
+							if ta, ok := ast.Unparen(x.Rhs[0]).(*ast.TypeAssertExpr); ok {
+								if gc, ok := ast.Unparen(ta.X).(*ast.CallExpr); ok {
+									if op, _, isP := c.poolCall(gc); isP && op == "Get" {
+										hasGet, pos = true, x.Pos()
+									}
+								}
+							}
+						}
+					case *ast.ExprStmt:
+						if call, ok := x.X.(*ast.CallExpr); ok {
+							if op, _, isP := c.poolCall(call); isP && op == "Put" {
+								hasPut = true
+							}
+						}
+					}
+				}
+				if hasGet {
+					sites = append(sites, site{u.Name, pos, hasPut})
+				}
+			}
+			visit(u.Body.List)
+		}
+		nIn := 0
+		for _, s := range sites {
+			if s.inline {
+				nIn++
+			}
+		}
+		for _, s := range sites {
+			key := s.name + " releases the replaced node like its siblings"
+			if nIn == 0 || nIn == len(sites) {
+				c.r.ok("R24", key, m.pos(s.pos), fmt.Sprintf("%d of %d replace sites release inline", nIn, len(sites)), "C12", "C16", "C11")
+			} else if s.inline == (nIn*2 < len(sites)) {
+				c.r.bad("R24", key, m.pos(s.pos), fmt.Sprintf("this replace site releases the old node inline=%v while %d of the %d sites do the opposite: with a shared release elsewhere the node is released twice (two trees receive the same node), without one it is never released", s.inline, max(nIn, len(sites)-nIn), len(sites)), "C12", "C16", "C11")
+			} else {
+				c.r.ok("R24", key, m.pos(s.pos), "agrees with the majority idiom", "C12", "C16", "C11")
+			}
+		}
 	}
 	c.r.note("R24: %d pool releases", nPut)
 	// clear() resets every field
@@ -611,6 +691,8 @@ func ruleNodeLayer(c *Ctx) {
 									c.r.ok("R25", key, m.pos(lhs.Pos()), "tree state is {root, size}, written by Insert/Delete", "C12", "C15")
 								case isOpt:
 									c.r.ok("R25", key, m.pos(lhs.Pos()), "construction-time option", "C12")
+								case okField && !c.reachOf("C15")[u]:
+									c.r.ok("R25", key, m.pos(lhs.Pos()), "tree state written by a mutator that no query reaches (helper of Insert/Delete or an additional mutating method)", "C12", "C15")
 								default:
 									c.r.bad("R25", key, m.pos(lhs.Pos()), "a tree keeps state other than {root, size}, or writes it outside Insert/Delete: an emptied tree no longer equals a new one / a query changes the tree", "C12", "C15", "C16")
 								}
